@@ -6,9 +6,11 @@
 set -u
 ID=$1; L=$2; shift 2
 CHECKS=${@:-$ID}
-SRC=/tmp/seed-$ID/$L
-DST=/verif/seeded/$ID-$L
-WT=/tmp/seedrun-$ID-$L
+# SEEDSET=2 takes the second wave: /tmp/seed2-Cxx/A -> /verif/seeded/Cxx-A2
+SET=${SEEDSET:-}
+SRC=/tmp/seed$SET-$ID/$L
+DST=/verif/seeded/$ID-$L$SET
+WT=/tmp/seedrun$SET-$ID-$L
 mkdir -p $DST
 cp $SRC/patch.diff $SRC/demo.py $DST/ 2>/dev/null
 cp $SRC/notes.md $DST/ 2>/dev/null
